@@ -282,6 +282,33 @@ func (s *Session) RunBlock(p *BlockPlan) (*BlockResult, error) {
 		s.emit(s.BridgeW, "blockmsg", Ev{"ok": res.TxResults[0].Code == 0, "otherOk": true, "ou": p.BridgeOU, "r": abs, "delivered": delivered, "log": short(res.TxResults[0].Log)})
 		for i, t := range p.Txs {
 			r := res.TxResults[i+1]
+			if len(t.Parts) > 0 { // several messages in one transaction: all-or-nothing (see the relayer trace below)
+				failed := len(t.Parts)
+				if r.Code != 0 {
+					failed = failedMsgIndex(r.Log)
+					if failed < 0 || failed >= len(t.Parts) {
+						return nil, fmt.Errorf("multi-message transaction failed outside its messages: %s", r.Log)
+					}
+				}
+				s.emit(s.BridgeW, "txbegin", Ev{"n": len(t.Parts)})
+				for j, pt := range t.Parts {
+					if j > failed {
+						break
+					}
+					ev, f := pt.BEv, pt.BF
+					if ev == "" {
+						ev, f = "other", Ev{}
+					}
+					f["ok"] = j < failed
+					f["log"] = ""
+					if j == failed {
+						f["log"] = short(r.Log)
+					}
+					s.emit(s.BridgeW, ev, f)
+				}
+				s.emit(s.BridgeW, "txend", Ev{"ok": r.Code == 0})
+				continue
+			}
 			ev, f := t.BEv, t.BF
 			if ev == "" {
 				ev, f = "other", Ev{}
